@@ -134,7 +134,8 @@ def gen_value(rng, ctr):
 EQ_SPECIALS = ["f0000000000000000", "f8000000000000000", "i0", "i1", "f3ff0000000000000", "fbff0000000000000", "i-1",
                "f7ff8000000000001", "n", "b0", "b1", "s-", "s30", "f43e0000000000000", "i7fffffffffffffff",
                "fc3e0000000000000", "i-8000000000000000", "f4340000000000000", "i20000000000000", "f4340000000000001",
-               "i20000000000002", "f7ff0000000000000", "fff0000000000000", "f3fe0000000000000", "t1", "t2", "g1", "c1.0"]
+               "i20000000000002", "f7ff0000000000000", "fff0000000000000", "f3fe0000000000000", "t1", "t2", "g1", "c1.0",
+               "c1.1", "c2.1", "c1.2", "c2.2", "c3.3"]
 
 
 def eq_twin(rng, tok, alias):
@@ -160,7 +161,7 @@ def gen_eq_op(rng, pool, alias):
     a = rng.choice(pool) if rng.chance(2, 3) else rng.choice(EQ_SPECIALS)
     c = rng.below(10)
     if c < 4:
-        b = eq_twin(rng, a, alias)
+        b = eq_twin(rng, a, True)           # E never stores into the history's table: closure twins are always allowed
     elif c < 7:
         b = rng.choice(pool)
     else:
@@ -168,6 +169,29 @@ def gen_eq_op(rng, pool, alias):
     if rng.chance(1, 2):
         a, b = b, a
     return "E %s %s" % (a, b)
+
+
+def gen_join_history(rng, idx):
+    """debug.upvaluejoin on a closure that is already a key (op J a b: a's first upvalue becomes b's cell).
+    Fresh closure objects per history (the harness memoises closures by token for the life of the process)."""
+    a, b = "c%x.1" % (0x2000 + 2 * idx), "c%x.3" % (0x2001 + 2 * idx)
+    n = rng.choice([0, 2, 5, 20, 24, 30, 40])
+    ops = ["S %s %s" % (stok(b"x%d" % i), itok(i)) for i in range(1, n + 1)]
+    ops.append("S %s %s" % (a, stok(b"v")))
+    for i in range(rng.below(4)):
+        ops.append("S %s %s" % (stok(b"y%d" % i), itok(100 + i)))
+    ops += ["G %s" % a, "J %s %s" % (a, b), "G %s" % a]
+    if rng.chance(1, 2):
+        ops.append("N %s" % a)
+    if rng.chance(1, 2):
+        ops.append("R %s %s" % (a, stok(b"w")))
+    ops += ["W 7 0 5 0 %x" % (2 * n + 30), "L", "G %s" % stok(b"x1")]
+    return ops
+
+
+def join_cut(ops):
+    """index of the first J op (the model does not follow the mutation of a closure object), or len(ops)"""
+    return next((i for i, o in enumerate(ops) if o.startswith("J ")), len(ops))
 
 
 def gen_history(rng, alias=False):
@@ -327,7 +351,7 @@ def to_sops(ops, gout):
     return sops, plan
 
 
-def eq_failures(a, b, raweq, eqop, same, s_raweq, s_same, what):
+def eq_failures(a, b, raweq, eqop, same, s_raweq, s_same, what, same_big="-"):
     """value equality against table-key identity for one pair (all arguments '0'/'1', same may be '-' when a is nil/NaN):
     the property itself (raw-equal <=> same entry), then each observation against the manual's definitions (S)"""
     out = []
@@ -341,6 +365,12 @@ def eq_failures(a, b, raweq, eqop, same, s_raweq, s_same, what):
         out.append("%s(%s, %s) is %s, the manual's equality says %s" % (what, a, b, raweq == "1", s_raweq == "1"))
     if same != "-" and same != s_same:
         out.append("(%s, %s) denote the same entry: implementation %s, abstract map %s" % (a, b, same == "1", s_same == "1"))
+    if same_big != "-" and raweq != same_big:
+        out.append("value equality and table-key identity disagree for (%s, %s) in a table with a hashed hash part (24 other keys): "
+                   "%s is %s but t[a]=true; t[b]~=nil is %s" % (a, b, what, raweq == "1", same_big == "1"))
+    if same_big != "-" and same_big != s_same:
+        out.append("(%s, %s) denote the same entry of a table with 24 other keys: implementation %s, abstract map %s"
+                   % (a, b, same_big == "1", s_same == "1"))
     return out
 
 
@@ -370,7 +400,8 @@ def check_s(ops, gout, sres, plan):
             if res not in s[0].split(","):
                 fails.append((i, "Len returned %s, borders are {%s}" % (res, s[0])))
         elif f[0] == "E":
-            fails += [(i, d) for d in eq_failures(f[1], f[2], res[2], res[2], res[3], s[0][0], s[0][1], "rawequal")]
+            fails += [(i, d) for d in eq_failures(f[1], f[2], res[2], res[2], res[3], s[0][0], s[0][1], "rawequal",
+                                                  same_big=(res[4] if len(res) > 4 else "-"))]
         elif f[0] == "N":
             r = res.split(",")
             v, present = s[0].split(",")
@@ -426,7 +457,7 @@ class Engine:
         return 0, res, ""
 
     def im(self, hists, gos, verbose=False):
-        lines = ["h%d %s %s %d ; %s" % (i, "V" if verbose else "M", gos[i][0], stride_for(ops), " ; ".join(ops))
+        lines = ["h%d %s %s %d ; %s" % (i, "V" if verbose else "M", gos[i][0], stride_for(ops), " ; ".join(ops[:join_cut(ops)]))
                  for i, ops in enumerate(hists)]
         rc, out, err = vlib.run_lines(self.oracle, [], lines, timeout=1800)
         return rc, [parse_im(l) for l in out], err
@@ -458,7 +489,7 @@ class Engine:
         fails = check_s(ops, gos[0][1], sres[0], plans[0])
         if fails and ck is not None:
             rc3, ims, _ = self.im([ops], gos)
-            im_equal = rc3 == 0 and ims and ims[0][0] == gos[0][1]
+            im_equal = rc3 == 0 and ims and ims[0][0] == gos[0][1][:join_cut(ops)]
             for (j, desc) in fails:
                 k = classify_known(ck, ops, j, desc, gos[0][1], im_equal)
                 if k is None:
@@ -532,6 +563,18 @@ def classify_known(ck, ops, i, desc, gout, im_equal):
             did_set = any((j * p + q) % m == 2 for j in range(len(vis)))
             if full and did_set:
                 return ck.known_match(lambda e: e["match"].get("class") == "walk-set-existing-when-full")
+    # (6) debug.upvaluejoin re-hashes a closure that is already a key
+    cut = join_cut(ops)
+    if cut < i and ops[cut].split()[1][0] == "c":
+        a = ops[cut].split()[1]
+        stored = False
+        for o in ops[:cut]:
+            g = o.split()
+            if g[0] in ("S", "R") and g[1] == a:
+                stored = g[2] != "n" and (g[0] == "S" or stored)
+        about_a = (f[0] in ("G", "R", "N", "S") and f[1] == a) or f[0] == "W"
+        if stored and about_a:
+            return ck.known_match(lambda e: e["match"].get("class") == "closure-key-upvaluejoin")
     # (5) Reset with an integral float key searches the hash part with the un-normalised key
     if f[0] == "R" and f[1][0] == "f" and tok_to_int(f[1]) is not None and f[2] != "n" and res == "w0":
         return ck.known_match(lambda e: e["match"].get("class") == "reset-float-key-not-normalised")
@@ -592,7 +635,7 @@ def lua_val(tok):
     raise ValueError(tok)
 
 
-LUA_CLOSURES = {"c1.0": 1, "c2.0": 2, "c3.1": 3}       # C[1], C[2]: same prototype, no upvalues; C[3]: another prototype
+LUA_CLOSURES = {"c1.0": 1, "c2.0": 2, "c3.1": 3, "c4.2": 4, "c5.2": 5, "c6.3": 6, "c7.3": 7}       # C[1], C[2]: same prototype, no upvalues; C[3]: another prototype
 LUA_TABLES = ["t1", "t2", "t3"]
 
 
@@ -610,8 +653,13 @@ local function id(x) return x end            -- operands reach == / rawequal at 
 local T = {{}, {}, {}}
 local function mkA() return function() end end
 local function mkB() return function() return 1 end end
-local C = {mkA(), mkA(), mkB()}
+local u, w1, w2 = 0, 1, 2
+local function mkU() return function() return u end end          -- one shared upvalue cell
+local function mkW() return function() return w1 + w2 end end    -- two shared upvalue cells
+local C = {mkA(), mkA(), mkB(), mkU(), mkU(), mkW(), mkW()}
 local function samekey(a, b) if a == nil or a ~= a then return nil end local tt = {}; tt[a] = true; return tt[b] ~= nil end
+local function samekeybig(a, b) if a == nil or a ~= a then return nil end
+  local tt = {}; for i = 1, 24 do tt["pf" .. i] = i end; tt[a] = true; return tt[b] ~= nil end
 """
 
 
@@ -630,7 +678,7 @@ def lua_render(ops):
         elif f[0] == "L":
             out.append("emit('L', #t)")
         elif f[0] == "Q":
-            out.append("do local a, b = id(%s), id(%s); emit('Q', rawequal(a, b), a == b, samekey(a, b)) end" % (lua_val(f[1]), lua_val(f[2])))
+            out.append("do local a, b = id(%s), id(%s); emit('Q', rawequal(a, b), a == b, samekey(a, b), samekeybig(a, b)) end" % (lua_val(f[1]), lua_val(f[2])))
         elif f[0] == "W":
             m, p, q, fresh, cap = walk_params(op)
             out.append("do local j = 0; local ok, err = pcall(function() for k, v in pairs(t) do emit('v', k, v); "
@@ -681,6 +729,11 @@ def gen_lua_history(rng):
 def gen_lua_eq_op(rng, pool):
     ok = lambda k: k[0] in "ifsbn" or k in LUA_CLOSURES or k in LUA_TABLES
     cand = [k for k in pool + EQ_SPECIALS + list(LUA_CLOSURES) + LUA_TABLES if ok(k)]
+    if rng.chance(1, 4):
+        cl = sorted(LUA_CLOSURES)
+        a = rng.choice(cl)
+        twin = {"c1.0": "c2.0", "c2.0": "c1.0", "c4.2": "c5.2", "c5.2": "c4.2", "c6.3": "c7.3", "c7.3": "c6.3", "c3.1": "c3.1"}
+        return "Q %s %s" % (a, twin[a] if rng.chance(2, 3) else rng.choice(cl))
     while True:
         f = gen_eq_op(rng, cand, True).split()
         if ok(f[1]) and ok(f[2]):
@@ -741,7 +794,7 @@ def check_lua(ops, events, status):
                 break
             bit = lambda c: {"b1": "1", "b0": "0"}.get(c, "-")
             sops.append("E %s %s" % (f[1], f[2]))
-            expect.append(("eq", oi, (f[1], f[2], bit(e[1]), bit(e[2]), bit(e[3]))))
+            expect.append(("eq", oi, (f[1], f[2], bit(e[1]), bit(e[2]), bit(e[3]), bit(e[4]) if len(e) > 4 else "-")))
         elif f[0] == "L":
             e = take()
             if e is None or e[0] != "s" + b"L".hex():
@@ -799,8 +852,8 @@ def lua_compare(expect, sres):
             elif not pay[1] and v != pay[0]:
                 fails.append((oi, "t[k] returned %s, map has %s" % (pay[0], v)))
         elif kind == "eq":
-            a, b, raweq, eqop, same = pay
-            fails += [(oi, d) for d in eq_failures(a, b, raweq, eqop, same, r[0], r[1], "rawequal")]
+            a, b, raweq, eqop, same, big = pay
+            fails += [(oi, d) for d in eq_failures(a, b, raweq, eqop, same, r[0], r[1], "rawequal", same_big=big)]
         elif kind == "len":
             if pay not in r.split(","):
                 fails.append((oi, "# returned %s, borders are {%s}" % (pay, r)))
@@ -932,7 +985,7 @@ def evaluate(ck, eng, hists, label, first_violation_only=True, max_report=3):
         ck.count("live-keys-at-walk<=%d" % (4 if live_max <= 4 else 16 if live_max <= 16 else 64 if live_max <= 64 else 256 if live_max <= 256 else 1024))
         ck.case(" ; ".join(ops), nontrivial=(maxbase >= 1 or maxarr >= 1))
         # ---- Go ≈ IM
-        im_equal = (gout == iout)
+        im_equal = (gout[:join_cut(ops)] == iout)       # a history is compared with the model up to its first J
         if not im_equal:
             n_im += 1
             if len(im_diffs) < 3:
@@ -998,7 +1051,7 @@ def run(tier, seed):
     nrand = int(os.environ.get("VERIF_C03_N", 500 if tier == "quick" else 8000))
     hists = list(corpus)
     for i in range(nrand):
-        hists.append(gen_history(ck.rng, alias=(i % 25 == 7)))
+        hists.append(gen_join_history(ck.rng, i) if i % 30 == 11 else gen_history(ck.rng, alias=(i % 25 == 7)))
     ck.log("histories: corpus %d, random %d, ops %d" % (len(corpus), nrand, sum(len(h) for h in hists)))
     n_im = n_s = 0
     im_diffs = []
